@@ -54,6 +54,10 @@ func (s *Stream) ExecuteFlow(
 	actions *streamconfig.StreamActions,
 ) (internaltypes.FlowGraphNodeI, error) {
 	closureFunc := func() (streamtypes.ProcessorIO, error) {
+		if err := verifhook.Fault("proc.execute", flow.GetName(), node.GetProcessorKey(),
+			apiStream.GetType().String(), apiStream.GetID()); err != nil {
+			return streamtypes.ProcessorIO{}, err
+		}
 		return node.GetProcessor().Execute(flow.GetName(), apiStream)
 	}
 	var err error
